@@ -25,7 +25,9 @@ Inductive entry :=
     (* registered function l invoked with notification n; [running] sampled inside it *)
 | EObs (o : nat) (k : nkind) (nm : name) (id : nat) (order_finished : bool)
     (* observer o received the LOG_EVENT entry for a notification *)
-| EQuery (v : name) (ctx : nat).        (* variable_access_function(v, ctx) *)
+| EQuery (v : name) (ctx : nat)         (* variable_access_function(v, ctx) *)
+| EFireIn (id : nat)                    (* the engine calls fire_event(finish id) from inside a notification ... *)
+| EFireOut (id : nat) (ret : bool).     (* ... and that nested call returned [ret] *)
 
 (* ---- run-time state of one statement occurrence ---- *)
 Inductive rst :=
